@@ -523,11 +523,12 @@ func init() {
 				if endParam == nil {
 					continue
 				}
-				if len(callsOf(fn, "(*chunkedContentCoder).Write")) == 0 && !storesNonConstInto(fn, endParam) {
+				// (Close and Write may sit in a helper that always runs them when it succeeds)
+				writes := c.sitesRunning(fn, "(*chunkedContentCoder).Write", 2)
+				closes := c.sitesRunning(fn, "(*chunkedContentCoder).Close", 2)
+				if len(writes) == 0 && !storesNonConstInto(fn, endParam) {
 					continue // only forwards the slice
 				}
-				writes := callsOf(fn, "(*chunkedContentCoder).Write")
-				closes := callsOf(fn, "(*chunkedContentCoder).Close")
 				n := 0
 				for _, b := range fn.Blocks {
 					for _, ins := range b.Instrs {
@@ -576,45 +577,47 @@ func init() {
 				if startParam == nil {
 					continue
 				}
-				progressive := true
-				// the coder's constructor, or a helper constructor that forwards the flag
-				for _, b := range fn.Blocks {
-					for _, ins := range b.Instrs {
-						mk, ok := ins.(*ssa.Call)
-						if !ok || mk.Call.StaticCallee() == nil || !c.inRoot(mk.Call.StaticCallee()) {
-							continue
-						}
-						if rt := mk.Call.Signature().Results(); rt.Len() != 1 || !strings.HasSuffix(rt.At(0).Type().String(), ".chunkedContentCoder") {
-							continue
-						}
-						if a := argNamed(&mk.Call, "progressiveWrite"); a != nil {
-							if k, ok := a.(*ssa.Const); ok && k.Value != nil && k.Value.Kind() == constant.Bool && !constant.BoolVal(k.Value) {
-								progressive = false
+				emittersOf := func(frame *ssa.Function) []*ssa.Call {
+					progressive := true
+					// the coder's constructor, or a helper constructor that forwards the flag
+					for _, b := range frame.Blocks {
+						for _, ins := range b.Instrs {
+							mk, ok := ins.(*ssa.Call)
+							if !ok || mk.Call.StaticCallee() == nil || !c.inRoot(mk.Call.StaticCallee()) {
+								continue
+							}
+							if rt := mk.Call.Signature().Results(); rt.Len() != 1 || !strings.HasSuffix(rt.At(0).Type().String(), ".chunkedContentCoder") {
+								continue
+							}
+							if a := argNamed(&mk.Call, "progressiveWrite"); a != nil {
+								if k, ok := a.(*ssa.Const); ok && k.Value != nil && k.Value.Kind() == constant.Bool && !constant.BoolVal(k.Value) {
+									progressive = false
+								}
 							}
 						}
 					}
-				}
-				var emitters []*ssa.Call
-				emitters = append(emitters, writes...)
-				if progressive {
-					emitters = append(emitters, closes...)
-					emitters = append(emitters, callsOf(fn, "(*chunkedContentCoder).Add")...)
-					// Add may be called from a visitor literal of this function
-					for _, lit := range fn.AnonFuncs {
-						if len(callsOf(lit, "(*chunkedContentCoder).Add")) > 0 {
-							for _, b := range fn.Blocks {
-								for _, ins := range b.Instrs {
-									if call, ok := ins.(*ssa.Call); ok {
-										for _, a := range call.Call.Args {
-											for {
-												if ct, ok := a.(*ssa.ChangeType); ok {
-													a = ct.X
-													continue
+					var emitters []*ssa.Call
+					emitters = append(emitters, c.sitesRunning(frame, "(*chunkedContentCoder).Write", 2)...)
+					if progressive {
+						emitters = append(emitters, c.sitesRunning(frame, "(*chunkedContentCoder).Close", 2)...)
+						emitters = append(emitters, callsOf(frame, "(*chunkedContentCoder).Add")...)
+						// Add may be called from a visitor literal of this function
+						for _, lit := range frame.AnonFuncs {
+							if len(callsOf(lit, "(*chunkedContentCoder).Add")) > 0 {
+								for _, b := range frame.Blocks {
+									for _, ins := range b.Instrs {
+										if call, ok := ins.(*ssa.Call); ok {
+											for _, a := range call.Call.Args {
+												for {
+													if ct, ok := a.(*ssa.ChangeType); ok {
+														a = ct.X
+														continue
+													}
+													break
 												}
-												break
-											}
-											if mc, ok := a.(*ssa.MakeClosure); ok && mc.Fn == ssa.Value(lit) {
-												emitters = append(emitters, call)
+												if mc, ok := a.(*ssa.MakeClosure); ok && mc.Fn == ssa.Value(lit) {
+													emitters = append(emitters, call)
+												}
 											}
 										}
 									}
@@ -622,7 +625,9 @@ func init() {
 							}
 						}
 					}
+					return emitters
 				}
+				emitters := emittersOf(fn)
 				skey := name + "/start-offset"
 				ns := 0
 				for _, b := range fn.Blocks {
@@ -640,8 +645,16 @@ func init() {
 						}
 						ns++
 						late := ""
-						for _, e := range emitters {
-							if canExecuteAfter(e, st) && !canExecuteAfter(st, e) || (e.Block() == st.Block() && instrIndex(e) < instrIndex(st)) {
+						// where the offset is captured: here, or - when a helper returns the section's
+						// span in a struct - where the helper takes it
+						var capture ssa.Instruction = st
+						em := emitters
+						if hv, ok := stripConv(c.throughStruct(st.Val)).(ssa.Instruction); ok && hv.Parent() != fn && c.inRoot(hv.Parent()) {
+							capture = hv
+							em = emittersOf(hv.Parent())
+						}
+						for _, e := range em {
+							if canExecuteAfter(e, capture) && !canExecuteAfter(capture, e) || (e.Block() == capture.Block() && instrIndex(e) < instrIndex(capture)) {
 								late = c.pos(e.Pos())
 							}
 						}
@@ -798,6 +811,15 @@ func init() {
 			fn := c.MustFn("(*Segment).DocsMatchingTerms")
 			key := fnName(fn) + "/reload"
 			calls := callsOf(fn, "(*Segment).dictionary")
+			if len(calls) == 0 {
+				// the cache may have become an object with a lookup method
+				for _, h := range staticCallees(fn) {
+					if c.inRoot(h) && h.Blocks != nil && len(callsOf(h, "(*Segment).dictionary")) == 1 && h.Signature.Recv() != nil {
+						fieldCacheObject(c, r, key, fn, h)
+						return
+					}
+				}
+			}
 			if len(calls) != 1 {
 				r.undecided(key, fnName(fn), c.pos(fn.Pos()), fmt.Sprintf("%d dictionary() calls", len(calls)))
 				return
@@ -980,4 +1002,93 @@ func reachesWithout(from, to, avoid *ssa.BasicBlock) bool {
 		work = append(work, b.Succs...)
 	}
 	return false
+}
+
+// fieldCacheObject: FIELD-CACHE when the remembered field and the cached
+// dictionary are two fields of an object and the lookup is its method h:
+// the reload happens exactly when the asked field differs from the
+// remembered one, loads the asked field, and on every path from the reload
+// to a return that may report success both fields are stored (the
+// dictionary with the loaded one, the remembered field with the asked one);
+// nothing else stores them.
+func fieldCacheObject(c *Ctx, r *Report, key string, user, h *ssa.Function) {
+	call := callsOf(h, "(*Segment).dictionary")[0]
+	b := call.Block()
+	recv := h.Params[0]
+	var asked *ssa.Parameter
+	for _, p := range h.Params[1:] {
+		if p.Type().String() == "string" {
+			asked = p
+		}
+	}
+	if asked == nil || call.Call.Args[1] != ssa.Value(asked) {
+		r.bad(key, fnName(h), c.pos(call.Pos()), "the dictionary is loaded for a different field than the one asked for")
+		return
+	}
+	// stores to the object's fields
+	var keyField, dictField string
+	stores := map[string][]*ssa.Store{}
+	for _, blk := range h.Blocks {
+		for _, ins := range blk.Instrs {
+			st, ok := ins.(*ssa.Store)
+			if !ok {
+				continue
+			}
+			fa, ok := st.Addr.(*ssa.FieldAddr)
+			if !ok || fa.X != ssa.Value(recv) {
+				continue
+			}
+			_, f := fieldAddrInfo(fa)
+			if f == nil {
+				continue
+			}
+			stores[f.Name()] = append(stores[f.Name()], st)
+			if st.Val == ssa.Value(asked) {
+				keyField = f.Name()
+			}
+			if ex, ok := st.Val.(*ssa.Extract); ok && ex.Tuple == ssa.Value(call) && ex.Index == 0 {
+				dictField = f.Name()
+			}
+		}
+	}
+	if keyField == "" || dictField == "" {
+		r.bad(key, fnName(h), c.pos(call.Pos()), "the lookup does not store both the asked field and the loaded dictionary in the cache object")
+		return
+	}
+	// reload exactly under asked != remembered
+	want := "!(param:" + asked.Name() + "==." + keyField + ")"
+	g := guardCanon(call, nil, nil)
+	alt := "(param:" + asked.Name() + "!=." + keyField + ")"
+	alt2 := "!(." + keyField + "==param:" + asked.Name() + ")"
+	alt3 := "(." + keyField + "!=param:" + asked.Name() + ")"
+	if g != want && g != alt && g != alt2 && g != alt3 {
+		r.bad(key, fnName(h), c.pos(call.Pos()), "the dictionary reload is governed by "+g+", not by the asked field differing from the remembered one")
+		return
+	}
+	// both stored on every path from the reload to a return that may report success
+	for _, f := range []string{keyField, dictField} {
+		via := map[*ssa.BasicBlock]bool{}
+		for _, st := range stores[f] {
+			if st.Block() != b && !b.Dominates(st.Block()) {
+				r.bad(key, fnName(h), c.pos(st.Pos()), "the cache field ."+f+" is also stored outside the reload path")
+				return
+			}
+			via[st.Block()] = true
+		}
+		for _, rb := range h.Blocks {
+			ret, ok := rb.Instrs[len(rb.Instrs)-1].(*ssa.Return)
+			if !ok || rb == h.Recover || !(rb == b || reachableWithout(b, rb, nil)) {
+				continue
+			}
+			ev := resolveLoad(ret.Results[len(ret.Results)-1])
+			if !isNilConst(ev) && knownNonNilAt(ev, rb) {
+				continue // reports the failure
+			}
+			if !via[b] && !coveredFrom(b, via, rb) {
+				r.bad(key, fnName(h), c.pos(ret.Pos()), "after a reload the return at "+c.pos(ret.Pos())+" can report success without ."+f+" having been stored: the remembered field and the cached dictionary no longer belong together, and later terms are answered from the wrong (or no) dictionary")
+				return
+			}
+		}
+	}
+	r.ok(key, fnName(h), c.pos(call.Pos()), "cache object: reloaded exactly when the asked field differs from ."+keyField+"; ."+keyField+" and ."+dictField+" are stored together on every path that may report success")
 }
